@@ -22,12 +22,15 @@ _COMMON_NOTE = ('ASSUMED (never counted as proved, listed in evidence.trusted_ba
                 'its converse, two edit-distance facts: DESIGN.md 0.4). '
                 'also assumed: CPython builtins used by the code (dict, list.index, sorted / list.sort as stable key-ordered permutations, zip). '
                 'BOUNDED stand-ins (exhaustive small scope + seeded random on the real code, evidence.bounded_standins): the completeness '
-                'half of PositionFilter.find_candidates and the never-drops half of PositionFilter.filter_pair (their soundness halves are proved). '
+                'half of PositionFilter.find_candidates (its soundness half is proved; both halves of PositionFilter.filter_pair are proved for the set measures), '
+                'the EDIT_DISTANCE / OVERLAP modes of PrefixFilter / PositionFilter.filter_pair (C04), PositionFilter.filter_tables keeping a subset of '
+                'PrefixFilter / SizeFilter.filter_tables in all modes (C14), a conformance run of filter_candset (C06). '
                 'Scope: all six *_join_py entry points, set_sim_join, InvertedIndex / OverlapFilter, SizeIndex / SizeFilter, '
                 'PrefixIndex / PrefixFilter (find_candidates, filter_tables), PositionIndex / PositionFilter (filter_tables), '
                 'Filter.filter_candset, apply_matcher. Not under contract (their part of the property is not decided by this check): '
-                'SuffixFilter, filter_pair of PrefixFilter / PositionFilter, the OVERLAP / EDIT_DISTANCE modes of the Size / Prefix / '
-                'Position filter classes, the Cython twins, disk_edit_distance_join. Row-level equality of the parallel (n_jobs > 1) '
+                'SuffixFilter, the OVERLAP / EDIT_DISTANCE modes of the Size / Prefix / Position filter classes (except SizeFilter.filter_pair, '
+                'the EDIT_DISTANCE prefix index / candidates, and the exact / missing / empty clauses of PrefixFilter / PositionFilter.filter_pair '
+                'under EDIT_DISTANCE), the Cython twins, disk_edit_distance_join. Row-level equality of the parallel (n_jobs > 1) '
                 'result with the serial one is not derived. Trusted: pyvc VC generator, z3/cvc5.')
 
 CLAIMS.update({
@@ -95,14 +98,18 @@ CLAIMS.update({
         note=_COMMON_NOTE + ' Known findings D8 (thresholds below 1e-150) and D10 (output name equal to _id) are recorded.',
         technique=TECH, design_ref='DESIGN.md 0.3, 4 (C15)'),
     'C04': dict(
-        text='SizeFilter, PrefixFilter (JACCARD, COSINE, DICE) and OverlapFilter: filter_pair is proved never to drop a pair of present '
+        text='SizeFilter, PrefixFilter, PositionFilter (JACCARD, COSINE, DICE) and OverlapFilter: filter_pair is proved never to drop a pair of present '
              'values whose similarity meets the threshold (SizeFilter: exact window characterisation + the proved safety theorem of the '
-             'size bounds; PrefixFilter: exact prefix characterisation + prefix-length theorem + prefix principle; OverlapFilter: exact). filter_tables of SizeFilter, OverlapFilter, PrefixFilter and PositionFilter (set measures) are proved to '
+             'size bounds; PrefixFilter: exact prefix characterisation + prefix-length theorem + prefix principle; PositionFilter: loop invariants '
+             '"current_overlap = number of right prefix ranks seen so far that are left prefix ranks", "stored position <= real position", the proved '
+             'prefix-length / overlap-threshold theorems and the Lean-proved prefix principle and positional bound; OverlapFilter: exact). filter_tables of SizeFilter, OverlapFilter, PrefixFilter and PositionFilter (set measures) are proved to '
              'list every such pair and every admitted empty pair (ghost origin maps, inductive invariants over the proved index '
              'structures), and filter_candset is proved to keep exactly the rows filter_pair does not drop.',
         note=_COMMON_NOTE + ' PrefixFilter: the step from "prefixes share a rank" (proved exact) to "qualifying pairs are listed" uses the '
-             'assumed prefix principle; PositionFilter: its find_candidates is a bounded stand-in. SuffixFilter (recorded finding D2 in '
-             'DESIGN.md), filter_pair of Prefix/Position filters and the EDIT_DISTANCE / OVERLAP modes are NOT covered by this check.',
+             'prefix principle (Lean); PositionFilter.filter_tables: its find_candidates completeness is a bounded stand-in. The EDIT_DISTANCE / OVERLAP '
+             'modes of PrefixFilter / PositionFilter.filter_pair are BOUNDED stand-ins on the real code (exhaustive over short strings on two letters, '
+             'seeded random beyond), never counted as proved. SuffixFilter (recorded finding D2 in DESIGN.md) and the EDIT_DISTANCE / OVERLAP modes '
+             'of filter_tables are NOT covered by this check.',
         technique=TECH, design_ref='DESIGN.md 0.3, 4 (C04)'),
     'C05': dict(
         text='_apply_matcher_split is proved, for all six operators, with and without tokenizer, with and without token cache, to '
@@ -120,8 +127,11 @@ CLAIMS.update({
              '(same columns, row order, index labels) of the rows whose referenced values filter_pair does not drop. OverlapFilter: '
              'filter_pair keeps a pair iff both token lists are non-empty and overlap comp_op overlap_size; _filter_tables_split and '
              'filter_tables list exactly those pairs, with the overlap as _sim_score.',
-        note=_COMMON_NOTE + ' The abstract filter_pair is assumed deterministic in (filter object, two values).',
-        technique=TECH, design_ref='DESIGN.md 4 (C06)'),
+        note=_COMMON_NOTE + ' The abstract filter_pair is assumed deterministic in (filter object, two values). Because the proof sits on the '
+             'ASSUMED pandas abstraction (which does not see dtype coercion), the executable contract of filter_candset is also run on the real '
+             'code in the quick tier (200 generated calls incl. int64 keys beyond 2^53 in numeric-only candidate sets): a BOUNDED conformance '
+             'stand-in, never counted as proved.',
+        technique=TECH + '; conformance of the assumed pandas layer: bounded run of the executable contract', design_ref='DESIGN.md 0.3, 4 (C06)'),
     'C14': dict(
         text='SizeFilter: filter_pair (set measures, EDIT_DISTANCE, OVERLAP) and filter_tables (set measures) are proved to decide exactly '
              'by the size window of the two token counts (a function of the counts alone; for EDIT_DISTANCE: counts differing by at most '
@@ -133,8 +143,10 @@ CLAIMS.update({
              'the threshold) is a BOUNDED check on the real get_size_lower_bound / get_size_upper_bound (all counts < 60 / 200, ~900 '
              'thresholds, seeded random), never counted as proved.',
         note=_COMMON_NOTE + ' Known finding D11 (COSINE thresholds below 0.00707 admit an empty right value) is recorded. The claim '
-             '"PositionFilter keeps a subset of PrefixFilter" is not derived; SizeFilter under EDIT_DISTANCE is not covered.',
-        technique=TECH + '; window tightness: bounded exhaustive check', design_ref='DESIGN.md 0.3, 4 (C14)'),
+             '"PositionFilter.filter_tables keeps a subset of PrefixFilter.filter_tables and of SizeFilter.filter_tables" is not derived as a lemma for '
+             'the table level; it is a BOUNDED differential stand-in on the real code (seeded random tables; set measures, EDIT_DISTANCE with '
+             'q-gram bags, OVERLAP), never counted as proved. SizeFilter.filter_tables under EDIT_DISTANCE is otherwise not covered.',
+        technique=TECH + '; window tightness and the Position <= Prefix / Size refinement in the uncontracted modes: bounded checks on the real code', design_ref='DESIGN.md 0.3, 4 (C14)'),
 })
 
 CLAIMS['C03'] = dict(
